@@ -32,9 +32,9 @@ func c14Name(tag uint8) string {
 	return "unknown"
 }
 
-func bcd2(v int) uint64 { return uint64((v/10)<<4 | v%10) }
+func c14Bcd2(v int) uint64 { return uint64((v/10)<<4 | v%10) }
 
-func isVBILineService(id uint8) bool {
+func c14IsVBILineService(id uint8) bool {
 	switch id {
 	case 0x01, 0x02, 0x04, 0x05, 0x06, 0x07:
 		return true
@@ -42,9 +42,9 @@ func isVBILineService(id uint8) bool {
 	return false
 }
 
-// lang3 writes a 24-bit language / country code (short codes are zero padded, long ones cut: only 3-byte codes are
+// c14Lang3 writes a 24-bit language / country code (short codes are zero padded, long ones cut: only 3-byte codes are
 // inside the property's domain)
-func lang3(w *bw, bs []byte) {
+func c14Lang3(w *bw, bs []byte) {
 	for k := 0; k < 3; k++ {
 		if k < len(bs) {
 			w.put(8, uint64(bs[k]))
@@ -54,8 +54,8 @@ func lang3(w *bw, bs []byte) {
 	}
 }
 
-// refBodyPresent reports whether d carries the typed body its tag selects.
-func refBodyPresent(d *astits.Descriptor) bool {
+// c14RefBodyPresent reports whether d carries the typed body its tag selects.
+func c14RefBodyPresent(d *astits.Descriptor) bool {
 	if c14IsUser(d.Tag) {
 		return true
 	}
@@ -110,9 +110,9 @@ func refBodyPresent(d *astits.Descriptor) bool {
 	return d.Unknown != nil
 }
 
-func refTeletext(w *bw, t *astits.DescriptorTeletext) {
+func c14RefTeletext(w *bw, t *astits.DescriptorTeletext) {
 	for _, it := range t.Items {
-		lang3(w, it.Language)
+		c14Lang3(w, it.Language)
 		w.put(5, uint64(it.Type))
 		w.put(3, uint64(it.Magazine))
 		w.put(4, uint64(it.Page/10)) // two BCD digits
@@ -120,8 +120,8 @@ func refTeletext(w *bw, t *astits.DescriptorTeletext) {
 	}
 }
 
-// mjdOf is the Modified Julian Date of a UTC time: days since 1858-11-17 (Unix day 0 is MJD 40587).
-func mjdOf(t time.Time) int64 {
+// c14MjdOf is the Modified Julian Date of a UTC time: days since 1858-11-17 (Unix day 0 is MJD 40587).
+func c14MjdOf(t time.Time) int64 {
 	s := t.Unix()
 	days := s / 86400
 	if s%86400 < 0 {
@@ -130,8 +130,8 @@ func mjdOf(t time.Time) int64 {
 	return days + 40587
 }
 
-// refBody is the reference encoding of the body the tag selects (the caller checked refBodyPresent).
-func refBody(d *astits.Descriptor) []byte {
+// c14RefBody is the reference encoding of the body the tag selects (the caller checked c14RefBodyPresent).
+func c14RefBody(d *astits.Descriptor) []byte {
 	w := &bw{}
 	if c14IsUser(d.Tag) {
 		w.bytes(d.UserDefined)
@@ -175,7 +175,7 @@ func refBody(d *astits.Descriptor) []byte {
 		w.put(4, uint64(c.StreamContent))
 		w.put(8, uint64(c.ComponentType))
 		w.put(8, uint64(c.ComponentTag))
-		lang3(w, c.ISO639LanguageCode)
+		c14Lang3(w, c.ISO639LanguageCode)
 		w.bytes(c.Text)
 	case 0x54: // content, 6.2.9
 		for _, it := range d.Content.Items {
@@ -221,7 +221,7 @@ func refBody(d *astits.Descriptor) []byte {
 		e := d.ExtendedEvent
 		w.put(4, uint64(e.Number))
 		w.put(4, uint64(e.LastDescriptorNumber))
-		lang3(w, e.ISO639LanguageCode)
+		c14Lang3(w, e.ISO639LanguageCode)
 		items := &bw{}
 		for _, it := range e.Items {
 			items.put(8, uint64(len(it.Description)))
@@ -243,32 +243,32 @@ func refBody(d *astits.Descriptor) []byte {
 			w.put(1, 1)
 			w.flag(s.HasLanguageCode)
 			if s.HasLanguageCode {
-				lang3(w, s.LanguageCode)
+				c14Lang3(w, s.LanguageCode)
 			}
 			w.bytes(s.PrivateData)
 		} else if e.Unknown != nil {
 			w.bytes(*e.Unknown)
 		}
 	case 0x0a: // ISO 639 language, 2.6.18 (one entry)
-		lang3(w, d.ISO639LanguageAndAudioType.Language)
+		c14Lang3(w, d.ISO639LanguageAndAudioType.Language)
 		w.put(8, uint64(d.ISO639LanguageAndAudioType.Type))
 	case 0x58: // local time offset, 6.2.20
 		for _, it := range d.LocalTimeOffset.Items {
-			lang3(w, it.CountryCode)
+			c14Lang3(w, it.CountryCode)
 			w.put(6, uint64(it.CountryRegionID))
 			w.put(1, 1)
 			w.flag(it.LocalTimeOffsetPolarity)
 			hm := func(x time.Duration) {
 				m := int(x / time.Minute)
-				w.put(8, bcd2(m/60))
-				w.put(8, bcd2(m%60))
+				w.put(8, c14Bcd2(m/60))
+				w.put(8, c14Bcd2(m%60))
 			}
 			hm(it.LocalTimeOffset)
 			t := it.TimeOfChange.UTC()
-			w.put(16, uint64(mjdOf(t)))
-			w.put(8, bcd2(t.Hour()))
-			w.put(8, bcd2(t.Minute()))
-			w.put(8, bcd2(t.Second()))
+			w.put(16, uint64(c14MjdOf(t)))
+			w.put(8, c14Bcd2(t.Hour()))
+			w.put(8, c14Bcd2(t.Minute()))
+			w.put(8, c14Bcd2(t.Second()))
 			hm(it.NextTimeOffset)
 		}
 	case 0x0e: // maximum bitrate, 2.6.26: units of 50 bytes/second
@@ -278,7 +278,7 @@ func refBody(d *astits.Descriptor) []byte {
 		w.bytes(d.NetworkName.Name)
 	case 0x55: // parental rating, 6.2.28
 		for _, it := range d.ParentalRating.Items {
-			lang3(w, it.CountryCode)
+			c14Lang3(w, it.CountryCode)
 			w.put(8, uint64(it.Rating))
 		}
 	case 0x0f: // private data indicator, 2.6.28
@@ -297,7 +297,7 @@ func refBody(d *astits.Descriptor) []byte {
 		w.bytes(s.Name)
 	case 0x4d: // short event, 6.2.37
 		s := d.ShortEvent
-		lang3(w, s.Language)
+		c14Lang3(w, s.Language)
 		w.put(8, uint64(len(s.EventName)))
 		w.bytes(s.EventName)
 		w.put(8, uint64(len(s.Text)))
@@ -306,19 +306,19 @@ func refBody(d *astits.Descriptor) []byte {
 		w.put(8, uint64(d.StreamIdentifier.ComponentTag))
 	case 0x59: // subtitling, 6.2.41
 		for _, it := range d.Subtitling.Items {
-			lang3(w, it.Language)
+			c14Lang3(w, it.Language)
 			w.put(8, uint64(it.Type))
 			w.put(16, uint64(it.CompositionPageID))
 			w.put(16, uint64(it.AncillaryPageID))
 		}
 	case 0x56: // teletext, 6.2.43
-		refTeletext(w, d.Teletext)
+		c14RefTeletext(w, d.Teletext)
 	case 0x46: // VBI teletext, 6.2.48
-		refTeletext(w, d.VBITeletext)
+		c14RefTeletext(w, d.VBITeletext)
 	case 0x45: // VBI data, 6.2.47
 		for _, s := range d.VBIData.Services {
 			w.put(8, uint64(s.DataServiceID))
-			if isVBILineService(s.DataServiceID) {
+			if c14IsVBILineService(s.DataServiceID) {
 				w.put(8, uint64(len(s.Descriptors)))
 				for _, l := range s.Descriptors {
 					w.put(2, 3)
@@ -336,21 +336,21 @@ func refBody(d *astits.Descriptor) []byte {
 	return w.b
 }
 
-// refBodyOrEmpty: a descriptor whose typed body is absent has an empty body.
-func refBodyOrEmpty(d *astits.Descriptor) []byte {
-	if !refBodyPresent(d) {
+// c14RefBodyOrEmpty: a descriptor whose typed body is absent has an empty body.
+func c14RefBodyOrEmpty(d *astits.Descriptor) []byte {
+	if !c14RefBodyPresent(d) {
 		return nil
 	}
-	return refBody(d)
+	return c14RefBody(d)
 }
 
-// refLoop is the reference encoding of a descriptor loop with its 12-bit length: reserved(4) length(12) then
+// c14RefLoop is the reference encoding of a descriptor loop with its 12-bit length: reserved(4) length(12) then
 // tag(8) length(8) body for each descriptor. ok is false when a body exceeds 255 bytes or the loop 4095.
-func refLoop(ds []*astits.Descriptor, withLength bool) (out []byte, ok bool) {
+func c14RefLoop(ds []*astits.Descriptor, withLength bool) (out []byte, ok bool) {
 	ok = true
 	body := &bw{}
 	for _, d := range ds {
-		b := refBodyOrEmpty(d)
+		b := c14RefBodyOrEmpty(d)
 		if len(b) > 255 {
 			ok = false
 		}
@@ -371,16 +371,16 @@ func refLoop(ds []*astits.Descriptor, withLength bool) (out []byte, ok bool) {
 	return w.b, ok
 }
 
-func is3(bs []byte) bool { return len(bs) == 3 }
+func c14Is3(bs []byte) bool { return len(bs) == 3 }
 
-// wfDesc: the value lies in the domain of the round-trip clause (the struct's Length field is not looked at):
+// c14WfDesc: the value lies in the domain of the round-trip clause (the struct's Length field is not looked at):
 // exactly the typed body of the tag, 3-byte language codes, numeric fields within their bit widths, bitrate a
 // multiple of 50 below 50*2^22, teletext page < 100, BCD-representable offsets, dates the 16-bit MJD covers, body <= 255 bytes.
-func wfDesc(d *astits.Descriptor) bool {
-	if !refBodyPresent(d) {
+func c14WfDesc(d *astits.Descriptor) bool {
+	if !c14RefBodyPresent(d) {
 		return false
 	}
-	if len(refBody(d)) > 255 {
+	if len(c14RefBody(d)) > 255 {
 		return false
 	}
 	if !c14IsUser(d.Tag) && len(d.UserDefined) > 0 {
@@ -396,7 +396,7 @@ func wfDesc(d *astits.Descriptor) bool {
 		return d.AVCVideo.CompatibleFlags < 32
 	case d.Tag == 0x50:
 		c := d.Component
-		return c.StreamContent < 16 && c.StreamContentExt < 16 && is3(c.ISO639LanguageCode)
+		return c.StreamContent < 16 && c.StreamContentExt < 16 && c14Is3(c.ISO639LanguageCode)
 	case d.Tag == 0x54:
 		for _, it := range d.Content.Items {
 			if it.ContentNibbleLevel1 > 15 || it.ContentNibbleLevel2 > 15 {
@@ -410,7 +410,7 @@ func wfDesc(d *astits.Descriptor) bool {
 			(a.HasSubStream1 || a.SubStream1 == 0) && (a.HasSubStream2 || a.SubStream2 == 0) && (a.HasSubStream3 || a.SubStream3 == 0)
 	case d.Tag == 0x4e:
 		e := d.ExtendedEvent
-		if e.Number > 15 || e.LastDescriptorNumber > 15 || !is3(e.ISO639LanguageCode) {
+		if e.Number > 15 || e.LastDescriptorNumber > 15 || !c14Is3(e.ISO639LanguageCode) {
 			return false
 		}
 		return true
@@ -422,16 +422,16 @@ func wfDesc(d *astits.Descriptor) bool {
 				return false
 			}
 			if s.HasLanguageCode {
-				return is3(s.LanguageCode)
+				return c14Is3(s.LanguageCode)
 			}
 			return len(s.LanguageCode) == 0
 		}
 		return e.Unknown != nil && e.SupplementaryAudio == nil
 	case d.Tag == 0x0a:
-		return is3(d.ISO639LanguageAndAudioType.Language)
+		return c14Is3(d.ISO639LanguageAndAudioType.Language)
 	case d.Tag == 0x58:
 		for _, it := range d.LocalTimeOffset.Items {
-			if !is3(it.CountryCode) || it.CountryRegionID > 63 {
+			if !c14Is3(it.CountryCode) || it.CountryRegionID > 63 {
 				return false
 			}
 			for _, x := range []time.Duration{it.LocalTimeOffset, it.NextTimeOffset} {
@@ -439,7 +439,7 @@ func wfDesc(d *astits.Descriptor) bool {
 					return false
 				}
 			}
-			m := mjdOf(it.TimeOfChange)
+			m := c14MjdOf(it.TimeOfChange)
 			if m < 15079 || m > 65535 || it.TimeOfChange.Nanosecond() != 0 {
 				return false
 			}
@@ -450,16 +450,16 @@ func wfDesc(d *astits.Descriptor) bool {
 		return b%50 == 0 && b/50 < 1<<22
 	case d.Tag == 0x55:
 		for _, it := range d.ParentalRating.Items {
-			if !is3(it.CountryCode) {
+			if !c14Is3(it.CountryCode) {
 				return false
 			}
 		}
 		return true
 	case d.Tag == 0x4d:
-		return is3(d.ShortEvent.Language)
+		return c14Is3(d.ShortEvent.Language)
 	case d.Tag == 0x59:
 		for _, it := range d.Subtitling.Items {
-			if !is3(it.Language) {
+			if !c14Is3(it.Language) {
 				return false
 			}
 		}
@@ -470,14 +470,14 @@ func wfDesc(d *astits.Descriptor) bool {
 			t = d.VBITeletext
 		}
 		for _, it := range t.Items {
-			if !is3(it.Language) || it.Type > 31 || it.Magazine > 7 || it.Page > 99 {
+			if !c14Is3(it.Language) || it.Type > 31 || it.Magazine > 7 || it.Page > 99 {
 				return false
 			}
 		}
 		return true
 	case d.Tag == 0x45:
 		for _, s := range d.VBIData.Services {
-			if !isVBILineService(s.DataServiceID) && len(s.Descriptors) > 0 {
+			if !c14IsVBILineService(s.DataServiceID) && len(s.Descriptors) > 0 {
 				return false
 			}
 			for _, l := range s.Descriptors {
@@ -494,8 +494,8 @@ func wfDesc(d *astits.Descriptor) bool {
 	return d.Unknown.Tag == d.Tag
 }
 
-// onlyBody reports that no typed body other than the one the tag selects is set (what the parser produces).
-func onlyBody(d *astits.Descriptor) bool {
+// c14OnlyBody reports that no typed body other than the one the tag selects is set (what the parser produces).
+func c14OnlyBody(d *astits.Descriptor) bool {
 	n := 0
 	for _, p := range []bool{d.AC3 != nil, d.AVCVideo != nil, d.Component != nil, d.Content != nil, d.DataStreamAlignment != nil,
 		d.EnhancedAC3 != nil, d.ExtendedEvent != nil, d.Extension != nil, d.ISO639LanguageAndAudioType != nil, d.LocalTimeOffset != nil,
@@ -512,10 +512,10 @@ func onlyBody(d *astits.Descriptor) bool {
 	return n == 1 && len(d.UserDefined) == 0
 }
 
-// expectParsed is what parsing the reference encoding of a well-formed d must yield: d itself with Length = the
+// c14ExpectParsed is what parsing the reference encoding of a well-formed d must yield: d itself with Length = the
 // body size; a body of zero bytes comes back as "no body" (S7: "no body" is identified with the empty value).
-func expectParsed(d *astits.Descriptor) *astits.Descriptor {
-	b := refBody(d)
+func c14ExpectParsed(d *astits.Descriptor) *astits.Descriptor {
+	b := c14RefBody(d)
 	if len(b) == 0 {
 		return &astits.Descriptor{Tag: d.Tag}
 	}
